@@ -18,9 +18,10 @@ Book == /\ nops < MaxOps
         /\ hist' = Append(hist, [a |-> act', d |-> Depth', in |-> InProj', out |-> OutProj'])
 NoBook == WithReads /\ UNCHANGED <<nops, hist>>
 
-MBegin        == Begin /\ Book
-MBeginWait    == BeginWait /\ Book
-MAdmit        == Admit /\ Book
+MBegin        == \E t \in Threads : Begin(t) /\ Book
+MBeginWait    == \E t \in Threads : BeginWait(t) /\ Book
+MAdmit        == \E t \in Threads : Admit(t) /\ Book
+MParkNested   == \E t \in Threads : ParkNested(t) /\ Book
 MResizeRefused == ResizeRefused /\ Book
 MChild        == Child /\ Book
 MCommitChild  == CommitChild /\ Book
@@ -31,18 +32,21 @@ MResize       == Resize /\ Book
 MCrash        == Crash /\ Book
 MPut          == \E sp \in Spaces, key \in Keys, v \in Vals : Put(sp, key, v) /\ Book
 MDel          == \E sp \in Spaces, key \in Keys : Del(sp, key) /\ Book
-MOutIterOpen  == \E r \in Readers, sp \in Spaces : OutIterOpen(r, sp) /\ Book
+MOutIterOpen  == \E t \in Threads, r \in Readers, sp \in Spaces : OutIterOpen(t, r, sp) /\ Book
 MOutIterNext  == \E r \in Readers : OutIterNext(r) /\ Book
 MOutIterClose == \E r \in Readers : OutIterClose(r) /\ Book
+MReadBegin    == \E t \in Threads, sp \in Spaces, key \in Keys : ReadBegin(t, sp, key) /\ Book
+MReadEnd      == \E t \in Threads : ReadEnd(t) /\ Book
 MGet          == \E sp \in Spaces, key \in Keys : Get(sp, key) /\ NoBook
 MExists       == \E sp \in Spaces, key \in Keys : Exists(sp, key) /\ NoBook
 MIter         == \E sp \in Spaces : Iter(sp) /\ NoBook
-MOutGet       == \E sp \in Spaces, key \in Keys : OutGet(sp, key) /\ NoBook
-MOutExists    == \E sp \in Spaces, key \in Keys : OutExists(sp, key) /\ NoBook
-MOutIter      == \E sp \in Spaces : OutIter(sp) /\ NoBook
+MOutGet       == \E t \in Threads, sp \in Spaces, key \in Keys : OutGet(t, sp, key) /\ NoBook
+MOutExists    == \E t \in Threads, sp \in Spaces, key \in Keys : OutExists(t, sp, key) /\ NoBook
+MOutIter      == \E t \in Threads, sp \in Spaces : OutIter(t, sp) /\ NoBook
 
-MCNext == \/ MBegin \/ MBeginWait \/ MAdmit \/ MResizeRefused \/ MChild \/ MCommitChild \/ MDropChild \/ MCommit \/ MDrop \/ MResize \/ MCrash
-          \/ MPut \/ MDel \/ MOutIterOpen \/ MOutIterNext \/ MOutIterClose
+MCNext == \/ MBegin \/ MBeginWait \/ MAdmit \/ MParkNested \/ MResizeRefused \/ MChild \/ MCommitChild \/ MDropChild \/ MCommit \/ MDrop
+          \/ MResize \/ MCrash
+          \/ MPut \/ MDel \/ MOutIterOpen \/ MOutIterNext \/ MOutIterClose \/ MReadBegin \/ MReadEnd
           \/ MGet \/ MExists \/ MIter \/ MOutGet \/ MOutExists \/ MOutIter
 MCSpec == MCInit /\ [][MCNext]_<<vars, nops, hist>>
 
@@ -51,9 +55,17 @@ P(n) == RandomElement(1..100) <= n
 SimNext == \/ MBegin \/ MBeginWait \/ MAdmit \/ (MPut /\ P(14)) \/ (MDel /\ P(20)) \/ MChild
            \/ MCommitChild \/ (MDropChild /\ P(60)) \/ (MCommit /\ P(50)) \/ (MDrop /\ P(20))
            \/ (MCrash /\ P(5)) \/ (MOutIterOpen /\ P(15)) \/ (MOutIterNext /\ P(60)) \/ (MOutIterClose /\ P(30))
+           \/ (MReadBegin /\ P(8)) \/ (MReadEnd /\ P(30))
 SimSpec == MCInit /\ [][SimNext]_<<vars, nops, hist>>
 
 View == <<state, nops>>
+
+\* the gate protocol without process death and without a horizon (deadlock checking): every reachable state
+\* within LiveBound has a successor - some thread can always move, in particular towards the enlargement
+LiveNext == NextNoCrash /\ UNCHANGED <<nops, hist>>
+LiveSpec == MCInit /\ [][LiveNext]_<<vars, nops, hist>>
+LiveView == state
+LiveBound == used <= MapInit + 1
 
 \* one behaviour per distinct horizon state (exhaustive mode) ...
 \* (Stride, Offset) thin the output deterministically: every Stride-th distinct horizon state
